@@ -40,6 +40,7 @@ type realResult struct {
 
 // runCase executes the case on the real library with the given dictionary.
 func runCase(c *lib.Ctx, k pCase) (res realResult) {
+	c.Index(lib.HookTerms())
 	c.Index(k.Ts)
 	for _, op := range k.Scr {
 		c.Index(op.Ts)
@@ -268,13 +269,21 @@ func termString(t *lib.Term) string {
 	return t.K
 }
 
+func logHook(err error, verb rune) {
+	if c, t := lib.SpecOfValue(err); c != nil {
+		c.LogCall("Hook", t, verb)
+	}
+}
+
 // installHook registers the error hook corresponding to Printer!HookKind.
 func installHook(kind string) {
+	currentHook = kind
 	switch kind {
 	case "none":
 		redact.RegisterRedactErrorFn(nil)
 	case "plain":
 		redact.RegisterRedactErrorFn(func(err error, p redact.SafePrinter, verb rune) {
+			logHook(err, verb)
 			p.SafeString("H<")
 			p.SafeRune(redact.SafeRune(verb))
 			p.SafeString(":")
@@ -283,12 +292,14 @@ func installHook(kind string) {
 		})
 	case "print":
 		redact.RegisterRedactErrorFn(func(err error, p redact.SafePrinter, verb rune) {
+			logHook(err, verb)
 			p.SafeString("H<")
 			p.Print(lib.PlainDict(900), redact.Safe(7))
 			p.SafeString(">")
 		})
 	case "panic":
 		redact.RegisterRedactErrorFn(func(err error, p redact.SafePrinter, verb rune) {
+			logHook(err, verb)
 			p.SafeString("H<")
 			panic(lib.PlainDict(903))
 		})
@@ -379,7 +390,15 @@ func judgePrinter(rep *lib.Report, prop string, c *lib.Ctx, ln *printerLine, res
 	if is("C11") {
 		judgeC11(rep, c, ln, res, kase)
 	}
+	if is("C15") {
+		judgeC15(rep, c, ln, res, currentHook, kase)
+	}
+	if is("C17") {
+		judgeC17(rep, c, ln, res, currentHook, kase)
+	}
 }
+
+var currentHook = "none"
 
 func hasScripts(ts []*lib.Term) bool {
 	for _, t := range ts {
